@@ -11,6 +11,7 @@ import (
 	"k8s.io/apimachinery/pkg/util/intstr"
 	"sigs.k8s.io/controller-runtime/pkg/client"
 	gatewayv1 "sigs.k8s.io/gateway-api/apis/v1"
+	gatewayv1alpha2 "sigs.k8s.io/gateway-api/apis/v1alpha2"
 
 	ngfAPI "github.com/nginx/nginx-gateway-fabric/apis/v1alpha1"
 	p "github.com/nginx/nginx-gateway-fabric/verifharness/pipeline"
@@ -118,6 +119,22 @@ func directed() map[string]*History {
 	add("namespace-unlabelled-relabelled", append(ns(), gc, gwSel, routeA, p.Service("team-a", "svc0", 80)),
 		upd(nsA, "ns-relabel", func(o client.Object) { delete(o.(*apiv1.Namespace).Labels, "team") }), cut,
 		upd(nsA, "ns-relabel", func(o client.Object) {}), cut)
+	// NGF policies: deleted (bare type: no targetRefs) / retargeted away / body changed
+	csp := &ngfAPI.ClientSettingsPolicy{ObjectMeta: p.Meta("default", "csp", 6)}
+	csp.Spec.TargetRef = gatewayv1alpha2.LocalPolicyTargetReference{Group: "gateway.networking.k8s.io", Kind: "Gateway", Name: "gw0"}
+	csp.Spec.Body = &ngfAPI.ClientBody{MaxSize: ptr(ngfAPI.Size("10m"))}
+	add("policy-deleted", base(csp), del(csp), cut)
+	add("policy-retargeted-away", base(csp), upd(csp, "csp-target", func(o client.Object) {
+		o.(*ngfAPI.ClientSettingsPolicy).Spec.TargetRef.Name = "gw-nowhere"
+	}), cut)
+	add("policy-body-changed", base(csp), upd(csp, "csp-body", func(o client.Object) {
+		o.(*ngfAPI.ClientSettingsPolicy).Spec.Body.MaxSize = ptr(ngfAPI.Size("20m"))
+	}), cut)
+	add("policy-created-later", base(), Op{Op: "u", Key: p.KeyOf(csp), Obj: csp, Label: "create"}, cut)
+	usp := &ngfAPI.UpstreamSettingsPolicy{ObjectMeta: p.Meta("default", "usp", 7)}
+	usp.Spec.TargetRefs = []gatewayv1alpha2.LocalPolicyTargetReference{{Kind: "Service", Name: "svc0"}}
+	usp.Spec.ZoneSize = ptr(ngfAPI.Size("1m"))
+	add("upstream-policy-deleted", base(usp), del(usp), cut)
 	// §7 row 23: GatewayClass controllerName
 	gcForeign := p.GatewayClass(p.DefaultClass, scen.ForeignController, 1)
 	add("class-created-foreign", append(ns(), gw, route, svc0, es0, sec), Op{Op: "u", Key: p.KeyOf(gcForeign), Obj: gcForeign, Label: "create"}, cut)
